@@ -1,5 +1,6 @@
 """Independent readers of the bundled example networks (species lists only), so that the structural
-checks can run on real-world networks: minimal (KIDA), primordial and deuterium (KROME).
+checks can run on real-world networks: minimal (KIDA), primordial and deuterium (KROME), cloud (UCLCHEM, upper-case
+element spelling with replacement, ice species, RR07 grain processes, ODE modifiers).
 
 The readers follow the file formats, apply the example's allowed-species filter (a reaction that
 mentions a species outside the list is not part of the network) and drop marker tokens."""
@@ -11,9 +12,27 @@ from pathlib import Path
 from . import chem
 
 
-def species_from_name(name: str, elements: list[str], pseudo: list[str]) -> dict | None:
+def species_from_name(name: str, elements: list[str], pseudo: list[str], replacement: dict | None = None, surface_prefix: str = "#") -> dict | None:
+    replacement = replacement or {}
     if name.upper() in ("E", "E-"):
-        return chem.make_species([], electron=name)
+        sp = chem.make_species([], electron=name)
+        if "E" in replacement and name[0] == "E":
+            sp["alias"] = replacement["E"] + "M"
+        return sp
+    surface = bool(surface_prefix) and name.startswith(surface_prefix)
+    if surface or replacement:
+        # the example spells elements its own way (upper case) and maps them to the usual symbols: the macro alias is
+        # built from the mapped symbols, ice species carry the G prefix
+        body = name[len(surface_prefix):] if surface else name
+        core = body.rstrip("+-")
+        charge = body.count("+", len(core)) - body.count("-", len(core))
+        toks = chem.tokenize(core, elements + pseudo)
+        if toks is None:
+            return None
+        parts = [(replacement.get(s, s), n) for s, n in toks if s not in pseudo]
+        sp = chem.make_species(parts, charge=charge, surface=surface, label="".join(s for s, n in toks if s in pseudo))
+        sp["name"] = name
+        return sp
     core = name.rstrip("+-")
     charge = name.count("+", len(core)) - name.count("-", len(core))
     if core.startswith("GRAIN"):
@@ -59,6 +78,14 @@ def load(example: str, repo: Path) -> dict:
             res = [v for k, v in zip(fmt, vals) if k == "r" and v]
             prs = [v for k, v in zip(fmt, vals) if k == "p" and v]
             reactions.append((res, prs))
+    elif mod.formats == "uclchem":
+        # r1,r2,r3,p1,p2,p3,p4,alpha,beta,gamma,tmin,tmax ; NAN = empty ; the second reactant may name the process
+        pseudo_tokens |= {"NAN", "", "FREEZE", "DESOH2", "DESCR", "DEUVCR", "THERM", "DIFF", "CHEMDES"}
+        for ln in lines:
+            if not ln.strip():
+                continue
+            f = [x.strip() for x in ln.split(",")]
+            reactions.append((f[0:3], f[3:7]))
     out, names = [], set()
     for i, (res, prs) in enumerate(reactions):
         res2 = [x for x in res if x not in pseudo_tokens]
@@ -71,7 +98,7 @@ def load(example: str, repo: Path) -> dict:
     pseudo = [p for p in mod.pseudo_elements]
     species = []
     for n in sorted(names | set(mod.extra_species)):
-        sp = species_from_name(n, elements, pseudo)
+        sp = species_from_name(n, elements, pseudo, dict(getattr(mod, "element_replacement", {}) or {}), getattr(mod, "surface_prefix", "#"))
         if sp is None:
             raise ValueError(f"cannot read species {n}")
         species.append(sp)
